@@ -86,8 +86,9 @@ func (pxy *SUDPProxy) InWorkConn(conn net.Conn, _ *msg.StartWorkConn) {
 	var rwc io.ReadWriteCloser = conn
 	var err error
 	if pxy.limiter != nil {
-		rwc = libio.WrapReadWriteCloser(limit.NewReader(conn, pxy.limiter), limit.NewWriter(conn, pxy.limiter), func() error {
-			return conn.Close()
+		underConn := conn
+		rwc = libio.WrapReadWriteCloser(limit.NewReader(underConn, pxy.limiter), limit.NewWriter(underConn, pxy.limiter), func() error {
+			return underConn.Close()
 		})
 	}
 	if pxy.cfg.Transport.UseEncryption {
